@@ -34,6 +34,13 @@ CLAIMS = {
              "overflow checks on, boundary-integer argument stream.",
              technique="Lean 4 totality/invariant proof of the checked-arithmetic model + catch_unwind differential run",
              ref="7 C16"),
+ "C11": dict(text="Proved: file-name round trip / fixed length / injectivity / order-isomorphism for every u64 id (digit-list proofs, "
+             "not samples); returned segment = place of the record; rotation rule; new chunk abuts and starts with the state "
+             "snapshot. The byte-level journal invariant (files = head + one record per accepted write in call order) is "
+             "decided by the correspondence run (dump of every record, directory listing, on-disk size) plus an "
+             "implementation-only oracle over returned segments, dump, stat and dir.",
+             technique="Lean 4 theorems (names, segment, rotation) + correspondence/oracle on dump, directory and segments",
+             ref="7 C11"),
 }
 
 NOT_YET = "check not built yet (work in progress; see DESIGN.md section 8)"
